@@ -107,9 +107,11 @@ package cputensor
 //@   loop 0 invariant forall(k, 0, i, ite(k >= len(index) || isAll(index[k]), cidx[k].From == 0 && cidx[k].To == dims[k], cidx[k] == index[k]))
 
 //@ func CPUTensor.numElems
-//@   uses dimsLink
+//@   uses dimsLink, cntHigh, cntStep
 //@   ensures[C06] n == prod(t.dims, 0, len(t.dims))
-//@   loop 0 invariant n == prod(t.dims, 0, _i0)
+//@   ensures[C06] n == cnt(arrOf(t.dims), 0, len(t.dims)) @opt cnt
+//@   loop 0 invariant n == prod(t.dims, 0, _i0) && n == cnt(arrOf(t.dims), 0, _i0)
+//@   loop 0 hint natTag(_i0)
 
 /* ---------------- abstract tensors (interface level; DESIGN.md 3.4) ---------------- */
 
@@ -692,13 +694,93 @@ package cputensor
 //@   ensures o != nil && rank(o) == rank(t) && forall(k, 0, rank(t)-2, dim(o, k) == dim(t, k)) && dim(o, rank(t)-2) == dim(t, rank(t)-2) && dim(o, rank(t)-1) == dim(u, rank(u)-1)
 //@   ensures forallJ(J, imp(inb(o, J), el(o, J) == msum(t, u, J)))
 
-// COUNT (paper lemma): Equals sums the 0/1 tensor of position-wise comparisons and compares with the element count; the
-// sum reaches the count iff every entry is 1. (A machine-checked version over the fold definition - number of one-leaves
-// of a tree, two nested inductions - was started and dropped: the inner induction step did not discharge, DESIGN.md 0.7.)
+// COUNT. Equals sums the 0/1 tensor of position-wise comparisons and compares with the element count. The sum is a fold
+// (tsumDef); over a tree of 0/1 leaves the fold adds exactly the number of one-leaves (ones / onesK, defined by
+// recursion over the tree), that number is at most the number of leaves (cnt) and reaches it iff every leaf is 1.
+//@ predicate Bin(d Data, A Idx, lo Int, hi Int) := ite(lo >= hi, isF(d) && (fval(d) == 0.0 || fval(d) == 1.0), isS(d) && slen(d) == A[lo] && A[lo] >= 0 && forall(i, 0, A[lo], Bin(child(d, i), A, lo+1, hi)))
+//@ predicate One(d Data, A Idx, lo Int, hi Int) := ite(lo >= hi, fval(d) == 1.0, forall(i, 0, A[lo], One(child(d, i), A, lo+1, hi)))
+//@ axiom cntDef: forallJ(A, forallI(lo, forallI(hi, cnt(A, lo, hi) == ite(lo >= hi, 1, A[lo] * cnt(A, lo+1, hi)))))
+//@ axiom onesDef: forallD(d, forallJ(A, forallI(lo, forallI(hi, ones(d, A, lo, hi) == ite(lo >= hi, ite(fval(d) == 1.0, 1, 0), onesK(d, A, lo, hi, A[lo]))))))
+//@ axiom onesKDef: forallD(d, forallJ(A, forallI(lo, forallI(hi, forallI(k, onesK(d, A, lo, hi, k) == ite(k <= 0, 0, onesK(d, A, lo, hi, k-1) + ones(child(d, k-1), A, lo+1, hi)))))))
+//@ lemma cntStep: forallJ(A, forallI(lo, forallI(hi, imp(lo < hi, cnt(A, lo, hi) == A[lo] * cnt(A, lo+1, hi)) && imp(lo >= hi, cnt(A, lo, hi) == 1)))) @uses cntDef
+//@ define cntHighBody(k) := forallJ(A, forallI(lo, forallI(hi, imp(natTag(k) && hi == lo + k + 1, cnt(A, lo, hi) == cnt(A, lo, hi-1) * A[hi-1]))))
+//@ induct cntHigh: up cntHighBody @uses cntStep
+// the fold of + over a tree of 0/1 leaves adds the number of one-leaves
+//@ predicate FoldOnesAt(lo Int, hi Int) := forallF(f, forallD(d, forallJ(A, forallR(acc, forallI(n, imp(n == hi - lo && isPlusFn(f) && Bin(d, A, lo, hi), foldD(f, d, n, acc) == acc + real(ones(d, A, lo, hi))))))))
+//@ define foldOnesP(lo, hi) := FoldOnesAt(lo, hi)
+//@ define foldOnesKBody(k) := forallI(lo, forallI(hi, forallF(f, forallD(d, forallJ(A, forallR(acc, forallI(n, trig(imp(n == hi - lo && lo < hi && FoldOnesAt(lo + 1, hi) && isPlusFn(f) && forall(i, 0, k, Bin(child(d, i), A, lo+1, hi)),
+//@              foldK(f, d, n, acc, k) == acc + real(onesK(d, A, lo, hi, k))), foldK(f, d, n, acc, k), onesK(d, A, lo, hi, k)))))))))
+//@ lemma foldKStep: forallF(f, forallD(d, forallI(n, forallR(a, forallI(k, trig(imp(k >= 0, foldK(f, d, n, a, k + 1) == foldD(f, child(d, k), n - 1, foldK(f, d, n, a, k))), foldK(f, d, n, a, k + 1))))))) @uses foldKDef
+//@ lemma foldKZero: forallF(f, forallD(d, forallI(n, forallR(a, foldK(f, d, n, a, 0) == a)))) @uses foldKDef
+//@ lemma onesKStep: forallD(d, forallJ(A, forallI(lo, forallI(hi, forallI(k, trig(imp(k >= 0, onesK(d, A, lo, hi, k + 1) == onesK(d, A, lo, hi, k) + ones(child(d, k), A, lo+1, hi)), onesK(d, A, lo, hi, k + 1))))))) @uses onesKDef
+//@ lemma onesKZero: forallD(d, forallJ(A, forallI(lo, forallI(hi, onesK(d, A, lo, hi, 0) == 0)))) @uses onesKDef
+//@ lemma foldOnesKStep: forallI(lo, forallI(hi, forallF(f, forallD(d, forallJ(A, forallR(acc, forallI(n, forallI(k, imp(n == hi - lo && lo < hi && FoldOnesAt(lo + 1, hi) && isPlusFn(f) && k >= 0
+//@              && Bin(child(d, k), A, lo+1, hi) && foldK(f, d, n, acc, k) == acc + real(onesK(d, A, lo, hi, k)), foldK(f, d, n, acc, k + 1) == acc + real(onesK(d, A, lo, hi, k + 1))))))))))) @uses foldKStep, onesKStep
+//@ induct foldOnesK: upfix foldOnesKBody @uses foldOnesKStep, foldKStep, onesKStep, foldKZero, onesKZero
+//@ lemma foldOnesNode: forallI(lo, forallI(hi, forallF(f, forallD(d, forallJ(A, forallR(acc, forallI(n, trig(imp(n == hi - lo && lo < hi && isPlusFn(f) && Bin(d, A, lo, hi) && foldK(f, d, n, acc, A[lo]) == acc + real(onesK(d, A, lo, hi, A[lo])),
+//@              foldD(f, d, n, acc) == acc + real(ones(d, A, lo, hi))), foldD(f, d, n, acc), ones(d, A, lo, hi))))))))) @uses foldDDef, onesDef
+//@ lemma foldOnesLeaf: forallI(lo, forallF(f, forallD(d, forallJ(A, forallR(acc, imp(isPlusFn(f) && Bin(d, A, lo, lo), foldD(f, d, 0, acc) == acc + real(ones(d, A, lo, lo)))))))) @uses foldDDef, onesDef
+//@ lemma binNode: forallD(d, forallJ(A, forallI(lo, forallI(hi, imp(lo < hi && Bin(d, A, lo, hi), isS(d) && slen(d) == A[lo] && A[lo] >= 0 && forall(i, 0, A[lo], Bin(child(d, i), A, lo+1, hi)))))))
+//@ lemma foldOnesAtNode: forallI(lo, forallI(hi, forallF(f, forallD(d, forallJ(A, forallR(acc, forallI(n, trig(imp(n == hi - lo && lo < hi && FoldOnesAt(lo + 1, hi) && isPlusFn(f) && Bin(d, A, lo, hi),
+//@              foldD(f, d, n, acc) == acc + real(ones(d, A, lo, hi))), foldD(f, d, n, acc), ones(d, A, lo, hi))))))))) @uses foldOnesK, foldOnesNode, binNode
+//@ induct foldOnes: foldOnesP @uses foldOnesAtNode, foldOnesLeaf
+
+// the number of one-leaves is at most the number of leaves, with equality iff every leaf is 1
+//@ predicate posFrom(A Idx, lo Int, hi Int) := forall(j, lo, hi, A[j] >= 1)
+//@ lemma posShrink: forallJ(A, forallI(lo, forallI(hi, imp(lo < hi && posFrom(A, lo, hi), posFrom(A, lo + 1, hi) && A[lo] >= 1))))
+//@ predicate OnesBoundAt(lo Int, hi Int) := forallD(d, forallJ(A, imp(Bin(d, A, lo, hi) && posFrom(A, lo, hi), 0 <= ones(d, A, lo, hi) && ones(d, A, lo, hi) <= cnt(A, lo, hi) && (ones(d, A, lo, hi) == cnt(A, lo, hi)) == One(d, A, lo, hi))))
+//@ predicate OneRow(d Data, A Idx, lo Int, hi Int, k Int) := forall(i, 0, k, One(child(d, i), A, lo+1, hi))
+//@ lemma oneRowStep: forallD(d, forallJ(A, forallI(lo, forallI(hi, forallI(k, trig(imp(k >= 0, OneRow(d, A, lo, hi, k + 1) == (OneRow(d, A, lo, hi, k) && One(child(d, k), A, lo+1, hi))), OneRow(d, A, lo, hi, k + 1)))))))
+//@ lemma oneRowZero: forallD(d, forallJ(A, forallI(lo, forallI(hi, OneRow(d, A, lo, hi, 0)))))
+//@ define onesBoundKBody(k) := forallI(lo, forallI(hi, forallD(d, forallJ(A, trig(imp(lo < hi && OnesBoundAt(lo + 1, hi) && posFrom(A, lo + 1, hi) && forall(i, 0, k, Bin(child(d, i), A, lo+1, hi)),
+//@              0 <= onesK(d, A, lo, hi, k) && onesK(d, A, lo, hi, k) <= k * cnt(A, lo + 1, hi) && (onesK(d, A, lo, hi, k) == k * cnt(A, lo + 1, hi)) == OneRow(d, A, lo, hi, k)), onesK(d, A, lo, hi, k))))))
+//@ lemma onesBoundKStep: forallI(lo, forallI(hi, forallD(d, forallJ(A, forallI(k, imp(lo < hi && OnesBoundAt(lo + 1, hi) && posFrom(A, lo + 1, hi) && k >= 0 && Bin(child(d, k), A, lo+1, hi)
+//@              && 0 <= onesK(d, A, lo, hi, k) && onesK(d, A, lo, hi, k) <= k * cnt(A, lo + 1, hi) && (onesK(d, A, lo, hi, k) == k * cnt(A, lo + 1, hi)) == OneRow(d, A, lo, hi, k),
+//@              0 <= onesK(d, A, lo, hi, k + 1) && onesK(d, A, lo, hi, k + 1) <= (k + 1) * cnt(A, lo + 1, hi) && (onesK(d, A, lo, hi, k + 1) == (k + 1) * cnt(A, lo + 1, hi)) == OneRow(d, A, lo, hi, k + 1))))))) @uses onesKStep, oneRowStep
+//@ induct onesBoundK: upfix onesBoundKBody @uses onesBoundKStep, onesKStep, onesKZero, oneRowStep, oneRowZero
+//@ lemma oneNode: forallD(d, forallJ(A, forallI(lo, forallI(hi, imp(lo < hi, One(d, A, lo, hi) == OneRow(d, A, lo, hi, A[lo]))))))
+//@ lemma onesBoundAtNode: forallI(lo, forallI(hi, forallD(d, forallJ(A, trig(imp(lo < hi && OnesBoundAt(lo + 1, hi) && Bin(d, A, lo, hi) && posFrom(A, lo, hi),
+//@              0 <= ones(d, A, lo, hi) && ones(d, A, lo, hi) <= cnt(A, lo, hi) && (ones(d, A, lo, hi) == cnt(A, lo, hi)) == One(d, A, lo, hi)), ones(d, A, lo, hi)))))) @uses onesBoundK, onesDef, cntStep, binNode, posShrink, oneNode
+//@ lemma onesBoundLeaf: forallI(lo, forallD(d, forallJ(A, imp(Bin(d, A, lo, lo), 0 <= ones(d, A, lo, lo) && ones(d, A, lo, lo) <= cnt(A, lo, lo) && (ones(d, A, lo, lo) == cnt(A, lo, lo)) == One(d, A, lo, lo))))) @uses onesDef, cntStep
+//@ define onesBoundP(lo, hi) := OnesBoundAt(lo, hi)
+//@ induct onesBound: onesBoundP @uses onesBoundAtNode, onesBoundLeaf
+
+// from the leaves to the tree predicates: a leaf value only depends on the coordinates below the node (leafvExt), so
+// "every leaf of d is 0 or 1" / "is 1" passes to the children
+//@ define leafvExtBody(lo, hi) := forallD(d, forallJ(A, forallJ(J, forallJ(K, imp(WF(d, A, lo, hi) && inRange(J, A, lo, hi) && sameOn(J, K, lo, hi), leafv(d, J, lo) == leafv(d, K, lo))))))
+//@ induct leafvExt: leafvExtBody
+//@ predicate LeavesBin(d Data, A Idx, lo Int, hi Int) := forallJ(J, imp(inRange(J, A, lo, hi), leafv(d, J, lo) == 0.0 || leafv(d, J, lo) == 1.0))
+//@ predicate LeavesOne(d Data, A Idx, lo Int, hi Int) := forallJ(J, imp(inRange(J, A, lo, hi), leafv(d, J, lo) == 1.0))
+//@ lemma leafvChild: forallD(d, forallJ(A, forallI(lo, forallI(hi, forallJ(J, forallI(i, trig(imp(lo < hi && WF(d, A, lo, hi) && 0 <= i && i < A[lo] && inRange(J, A, lo + 1, hi),
+//@              leafv(child(d, i), J, lo + 1) == leafv(d, upd(J, lo, i), lo) && inRange(upd(J, lo, i), A, lo, hi)), leafv(child(d, i), J, lo + 1), WF(d, A, lo, hi)))))))) @uses leafvExt
+//@ lemma leavesBinChild: forallD(d, forallJ(A, forallI(lo, forallI(hi, forallI(i, imp(lo < hi && WF(d, A, lo, hi) && 0 <= i && i < A[lo] && LeavesBin(d, A, lo, hi), LeavesBin(child(d, i), A, lo+1, hi))))))) @uses leafvChild
+//@ lemma leavesOneChild: forallD(d, forallJ(A, forallI(lo, forallI(hi, forallI(i, imp(lo < hi && WF(d, A, lo, hi) && 0 <= i && i < A[lo] && LeavesOne(d, A, lo, hi), LeavesOne(child(d, i), A, lo+1, hi))))))) @uses leafvChild
+//@ define binFromLeavesBody(lo, hi) := forallD(d, forallJ(A, imp(WF(d, A, lo, hi) && posFrom(A, lo, hi) && LeavesBin(d, A, lo, hi), Bin(d, A, lo, hi))))
+//@ induct binFromLeaves: binFromLeavesBody @uses leavesBinChild, posShrink
+//@ define oneFromLeavesBody(lo, hi) := forallD(d, forallJ(A, imp(WF(d, A, lo, hi) && posFrom(A, lo, hi) && LeavesOne(d, A, lo, hi), One(d, A, lo, hi))))
+//@ induct oneFromLeaves: oneFromLeavesBody @uses leavesOneChild, posShrink
+//@ define leavesFromOneBody(lo, hi) := forallD(d, forallJ(A, forallJ(J, imp(WF(d, A, lo, hi) && One(d, A, lo, hi) && inRange(J, A, lo, hi), leafv(d, J, lo) == 1.0))))
+//@ induct leavesFromOne: leavesFromOneBody
+
+//@ define eqA(o) := arrOf(o.dims)
 //@ func CPUTensor.equals
-//@   requires u != nil && sameShape(t, u)
-//@   assumed counting argument (sum of 0/1 values >= n iff all are 1: lemma COUNT); bounded stand-in: rac TestElementwise
-//@   ensures are == forallJ(J, imp(inb(t, J), close(el(t, J), el(u, J))))
+//@   requires published(t) && u != nil && published(u) && sameShape(t, u)
+//@   uses dimsLink, dataLink
+//@   wants cnt
+//@   have o != nil && published(o) && sameShape(o, t) && posFrom(eqA(o), 0, len(o.dims)) && isPlusFn(plusFn())
+//@   have LeavesBin(o.data, eqA(o), 0, len(o.dims))
+//@   have Bin(o.data, eqA(o), 0, len(o.dims)) @uses binFromLeaves
+//@   have FoldOnesAt(0, len(o.dims)) @uses foldOnes
+//@   have tsum(o) == real(ones(o.data, eqA(o), 0, len(o.dims))) @uses tsumDef
+//@   have n == cnt(eqA(o), 0, len(o.dims))
+//@   have OnesBoundAt(0, len(o.dims)) @uses onesBound
+//@   have ones(o.data, eqA(o), 0, len(o.dims)) <= cnt(eqA(o), 0, len(o.dims)) && (ones(o.data, eqA(o), 0, len(o.dims)) == cnt(eqA(o), 0, len(o.dims))) == One(o.data, eqA(o), 0, len(o.dims))
+//@   have imp(One(o.data, eqA(o), 0, len(o.dims)), forallJ(J, imp(inb(o, J), el(o, J) == 1.0))) @uses leavesFromOne
+//@   have imp(forallJ(J, imp(inb(o, J), el(o, J) == 1.0)), LeavesOne(o.data, eqA(o), 0, len(o.dims)))
+//@   have imp(LeavesOne(o.data, eqA(o), 0, len(o.dims)), One(o.data, eqA(o), 0, len(o.dims))) @uses oneFromLeaves
+//@   have res0 == One(o.data, eqA(o), 0, len(o.dims))
+//@   have One(o.data, eqA(o), 0, len(o.dims)) == forallJ(J, imp(inb(o, J), el(o, J) == 1.0))
+//@   ensures[C03] are == forallJ(J, imp(inb(t, J), close(el(t, J), el(u, J))))
 
 /* ---------------- initializers.go ---------------- */
 
